@@ -47,7 +47,7 @@ func (c09) New() interface{} { return &C09Script{} }
 func (c09) Info() core.Info {
 	return core.Info{
 		Runs: map[string]int{"quick": 2000000, "thorough": 200000000},
-		Rule: "Each run is a scripted caller history over a graph of mutable objects: one signal (created empty, or decoded from a reference-serialised canonical section with splice_null / time_signal / splice_insert, 0..3 segmentation descriptors and foreign descriptors), a pool of three command objects (null, time_signal, splice_insert) and three segmentation descriptors built through the creation API. The history (<=40 steps) calls every setter of the signal, the commands and the descriptors in any order (flags set and cleared, values at and beyond the field widths, UPID / multiple-UPID changes incl. the documented no-effect combinations, component lists), attaches and replaces commands and descriptor lists, and encodes at arbitrary points. After every step every getter of every object is compared with a logical model and Data() must still be the bytes of the last encoding; at every encoding the bytes are compared with the reference serialisation of the model (SCTE 35 syntax tables; pts_adjustment is only compared when the command carries a time), the CRC of the whole section must be zero, a second UpdateData must return the same bytes, the bytes are decoded again and every visible field compared, and the decoded signal is re-encoded and must reproduce the bytes. Non-trivial = at least one reach probe fired.",
+		Rule: "Each run is a scripted caller history over a graph of mutable objects: one signal (created empty, or decoded from a reference-serialised canonical section with splice_null / time_signal / splice_insert, 0..3 segmentation descriptors and foreign descriptors), a pool of three command objects (null, time_signal, splice_insert) and three segmentation descriptors built through the creation API. The history (<=40 steps) calls every setter of the signal, the commands and the descriptors in any order (flags set and cleared, values at and beyond the field widths, UPID / multiple-UPID changes incl. the documented no-effect combinations, component lists), attaches and replaces commands and descriptor lists, and encodes at arbitrary points. After every step every getter of every object is compared with a logical model and Data() must still be the bytes of the last encoding; at every encoding the bytes are compared with the reference serialisation of the model (SCTE 35 syntax tables; pts_adjustment is only compared when the command carries a time), the CRC of the whole section must be zero, a second UpdateData must return the same bytes, the bytes are decoded again and every visible field compared, and the decoded signal is re-encoded and must reproduce the bytes. Plus a complete sweep of all histories of length <=4 (quick) / <=5 (thorough) over an 18-letter alphabet of the calls whose interplay decides the encoding. Non-trivial = at least one reach probe fired.",
 		Real: []string{"scte35.CreateSCTE35 / CreateSpliceNull / CreateTimeSignalCommand / CreateSpliceInsertCommand / CreateSegmentationDescriptor / CreateUPID / CreateComponentOffset", "every Set* of SCTE35, SpliceCommand, SpliceInsertCommand, SegmentationDescriptor", "SCTE35.UpdateData / Data", "SpliceCommand.Data / SegmentationDescriptor.Data", "scte35.NewSCTE35 (decode of the encoded bytes)", "all getters"},
 		Stub: []string{"the caller (scripted history)", "reference serialiser + CRC (ref.Section)", "logical model of the object graph"},
 		Assumptions: []string{
@@ -313,8 +313,59 @@ func (c09) Gen(r *core.Rand, tier string) interface{} {
 	return s
 }
 
-func (c09) SweepSize(string) int              { return 0 }
-func (c09) SweepCase(string, int) interface{} { return nil }
+// sweep alphabet: the calls whose interplay decides what is encoded, on fixed values
+var c09Alpha = []C09Op{
+	{Obj: "sc", Op: "set_cmd", List: []string{"c1"}},
+	{Obj: "sc", Op: "set_cmd", List: []string{"c2"}},
+	{Obj: "sc", Op: "has_pts", B: true},
+	{Obj: "sc", Op: "has_pts", B: false},
+	{Obj: "sc", Op: "pts", U: 1<<33 - 1},
+	{Obj: "sc", Op: "adjust_pts", U: 5},
+	{Obj: "c1", Op: "pts", U: 90000},
+	{Obj: "c2", Op: "has_pts", B: true},
+	{Obj: "c2", Op: "program", B: false},
+	{Obj: "c2", Op: "immediate", B: true},
+	{Obj: "c2", Op: "cancel", B: true},
+	{Obj: "c2", Op: "has_dur", B: true},
+	{Obj: "sc", Op: "encode"},
+	{Obj: "sc", Op: "set_descs", List: []string{"d0", "d1"}},
+	{Obj: "d0", Op: "cancel", B: true},
+	{Obj: "d1", Op: "type", U: 0x34},
+	{Obj: "d1", Op: "has_sub", B: true},
+	{Obj: "d1", Op: "mid", MID: []ref.UPID{{Type: 8, Data: core.Hex{1, 2}}, {Type: 0x0C, Data: core.Hex{3}}}},
+}
+
+func c09SweepLen(tier string) int {
+	if tier == "thorough" {
+		return 5
+	}
+	return 4
+}
+
+func (c09) SweepSize(tier string) int {
+	n, p := 0, 1
+	for l := 1; l <= c09SweepLen(tier); l++ {
+		p *= len(c09Alpha)
+		n += p
+	}
+	return n
+}
+
+func (c09) SweepCase(tier string, i int) interface{} {
+	l, p := 1, len(c09Alpha)
+	for i >= p {
+		i -= p
+		l++
+		p *= len(c09Alpha)
+	}
+	s := &C09Script{}
+	for k := 0; k < l; k++ {
+		s.Ops = append(s.Ops, c09Alpha[i%len(c09Alpha)])
+		i /= len(c09Alpha)
+	}
+	s.Ops = append(s.Ops, C09Op{Obj: "sc", Op: "encode"})
+	return s
+}
 func (c09) Size(script interface{}) int {
 	s := script.(*C09Script)
 	n := len(s.Ops) * 2
@@ -476,6 +527,42 @@ func (c09) Exec(script interface{}, c *core.Ctx) {
 		lastEnc, haveEnc = enc, true
 	}
 
+	// a bystander: another signal alive in the same process, with a command and a descriptor of
+	// its own, encoded again after each of our encodings; the two must not show in each other
+	var bySig scte35.SCTE35
+	var byEnc []byte
+	if !c.Call("bystander signal", func() {
+		bySig = scte35.CreateSCTE35()
+		bc := scte35.CreateTimeSignalCommand()
+		bc.SetHasPTS(true)
+		bc.SetPTS(123456)
+		bySig.SetCommandInfo(bc)
+		bd := scte35.CreateSegmentationDescriptor()
+		bd.SetEventID(0xB157A4DE)
+		bd.SetTypeID(0x30)
+		bd.SetHasProgramSegmentation(true)
+		bd.SetIsDeliveryNotRestricted(true)
+		bySig.SetDescriptors([]scte35.SegmentationDescriptor{bd})
+		byEnc = append([]byte(nil), bySig.UpdateData()...)
+	}) {
+		return
+	}
+	bystander := func() bool {
+		var again, mine []byte
+		if !c.Call("bystander UpdateData", func() { again = bySig.UpdateData(); mine = sc.Data() }) {
+			return false
+		}
+		if !bytes.Equal(again, byEnc) {
+			c.Fail("signals_independent", "another_signal_changed", fmt.Sprintf("%x", again), fmt.Sprintf("%x", byEnc))
+			return false
+		}
+		if haveEnc && !bytes.Equal(mine, lastEnc) {
+			c.Fail("signals_independent", "data_changed_by_another_signals_encoding", fmt.Sprintf("%x", mine), fmt.Sprintf("%x", lastEnc))
+			return false
+		}
+		return true
+	}
+
 	section := func() ref.Section {
 		sec := ref.Section{Tier: tier, CW: cw, Stuffing: stuffing, Cmd: cmds[curCmd].m}
 		if sec.Cmd.CarriesTime() {
@@ -582,6 +669,9 @@ func (c09) Exec(script interface{}, c *core.Ctx) {
 				items = names
 			case "encode":
 				if !c09Encode(c, sc, section(), &lastEnc, &haveEnc, descs, items, &heldRaw) {
+					return
+				}
+				if !bystander() {
 					return
 				}
 			}
